@@ -24,7 +24,7 @@ pub enum UCmd {
     RegenImports,
     RegenUnpublished,
     CertifyFull { pkg: String, v: VetVersion, crit: Vec<String> },
-    CertifyDelta { pkg: String, from: VetVersion, to: VetVersion, crit: Vec<String> },
+    CertifyDelta { pkg: String, from: VetVersion, to: VetVersion, crit: Vec<String>, collapse: bool },
     CertifyWildcard { pkg: String, login: String, crit: Vec<String>, end: Option<chrono::NaiveDate> },
     Trust { pkg: String, login: String, crit: Vec<String> },
     Import { name: String, url: String },
@@ -58,10 +58,11 @@ impl UCmd {
                 crits(&mut a, crit);
                 a.extend([s("--who"), s("tester"), s("--accept-all")]);
             }
-            UCmd::CertifyDelta { pkg, from, to, crit } => {
+            UCmd::CertifyDelta { pkg, from, to, crit, collapse } => {
                 a.extend([s("certify"), pkg.clone(), from.to_string(), to.to_string()]);
                 crits(&mut a, crit);
-                a.extend([s("--who"), s("tester"), s("--accept-all"), s("--no-collapse")]);
+                a.extend([s("--who"), s("tester"), s("--accept-all")]);
+                if !collapse { a.push(s("--no-collapse")); }
             }
             UCmd::CertifyWildcard { pkg, login, crit, end } => {
                 a.extend([s("certify"), pkg.clone(), s("--wildcard"), login.clone()]);
@@ -222,7 +223,8 @@ fn replica(p: &Project, uc: &UCmd, d: &mut Driver) -> Result<Vec<String>, String
                 let criteria = spanned(&minimal_names(&spec, crit).ok_or("unknown criterion")?);
                 store.audits.audits.entry(pkg.clone()).or_default().push(AuditEntry { who, criteria, importable: v.git_rev.is_none(), kind: AuditKind::Full { version: v.clone() }, notes: None, aggregated_from: vec![], is_fresh_import: false });
             }
-            UCmd::CertifyDelta { pkg, from, to, crit } => {
+            UCmd::CertifyDelta { from, collapse: true, .. } if from.git_rev.is_some() => return Err("no replica".into()),
+            UCmd::CertifyDelta { pkg, from, to, crit, .. } => {
                 if !foreign(&store, pkg) { return Err("not a package".into()); }
                 let criteria = spanned(&minimal_names(&spec, crit).ok_or("unknown criterion")?);
                 store.audits.audits.entry(pkg.clone()).or_default().push(AuditEntry { who, criteria, importable: from.git_rev.is_none() && to.git_rev.is_none(), kind: AuditKind::Delta { from: from.clone(), to: to.clone() }, notes: None, aggregated_from: vec![], is_fresh_import: false });
@@ -399,7 +401,12 @@ fn c11_user(r: &mut Report, uc: &UCmd, before: &[String], after: &[String], live
         let asked_ok = match uc {
             // (a non-importable audit the clean-up finds no use for is pruned again at once)
             UCmd::CertifyFull { pkg, v, crit } if pkg == n => (rest.is_empty() && v.git_rev.is_some()) || rest.len() == 1 && matches!(&rest[0].kind, AuditKind::Full { version } if version == v) && spec.cl(&rest[0].criteria) == spec.cl(crit),
-            UCmd::CertifyDelta { pkg, from, to, crit } if pkg == n => (rest.is_empty() && (from.git_rev.is_some() || to.git_rev.is_some())) || rest.len() == 1 && matches!(&rest[0].kind, AuditKind::Delta { from: f, to: t } if f == from && t == to) && spec.cl(&rest[0].criteria) == spec.cl(crit),
+            UCmd::CertifyDelta { pkg, from, to, crit, collapse } if pkg == n => (rest.is_empty() && (from.git_rev.is_some() || to.git_rev.is_some()))
+                || rest.len() == 1 && spec.cl(&rest[0].criteria) == spec.cl(crit) && match &rest[0].kind {
+                    AuditKind::Delta { from: f, to: t } => t == to && (f == from || *collapse && from.git_rev.is_some()),
+                    AuditKind::Full { version } => version == to && *collapse && from.git_rev.is_some(),
+                    _ => false,
+                },
             UCmd::RecordViolation { pkg, crit, .. } if pkg == n => rest.len() == 1 && matches!(&rest[0].kind, AuditKind::Violation { .. }) && rest[0].criteria.iter().map(|c| c.to_string()).collect::<Vec<_>>() == *crit,
             _ => rest.is_empty(),
         };
@@ -451,6 +458,68 @@ fn c11_user(r: &mut Report, uc: &UCmd, before: &[String], after: &[String], live
                     if !locked && !served {
                         r.fail("oracle", "C11/ucmd/lock-records-unserved-audit", format!("`{lab}`: {iname}/{name}: {x:?}"), case);
                     }
+                }
+            }
+        }
+    }
+}
+
+/// C11, semantically: after the command the store certifies nothing that the store before the
+/// command plus the entry asked for does not certify (same remote data).  Robust against how the
+/// asked entry is recorded (e.g. collapsed with a prior audit).
+fn c11_no_wider(r: &mut Report, p: &Project, uc: &UCmd, before: &[String], live_after: &Store, case: &str) {
+    let Some(mut ba) = load(before) else { return };
+    let Some(spec) = core::Spec::new(&ba.audits.criteria) else { return };
+    let who = vec![gen::sp("tester".to_owned())];
+    let today = mock_today();
+    match uc {
+        UCmd::CertifyFull { pkg, v, crit } => ba.audits.audits.entry(pkg.clone()).or_default().push(AuditEntry { who, criteria: spanned(crit), importable: true, kind: AuditKind::Full { version: v.clone() }, notes: None, aggregated_from: vec![], is_fresh_import: false }),
+        UCmd::CertifyDelta { pkg, from, to, crit, .. } => ba.audits.audits.entry(pkg.clone()).or_default().push(AuditEntry { who, criteria: spanned(crit), importable: true, kind: AuditKind::Delta { from: from.clone(), to: to.clone() }, notes: None, aggregated_from: vec![], is_fresh_import: false }),
+        // the widest entry the request can mean: the user, the criteria, any date up to the cap
+        UCmd::CertifyWildcard { pkg, login, crit, end } => {
+            let Some(uid) = login.strip_prefix("user").and_then(|x| x.parse::<u64>().ok()) else { return };
+            ba.audits.wildcard_audits.entry(pkg.clone()).or_default().push(WildcardEntry { who, criteria: spanned(crit), user_id: uid, start: gen::date(-4000).into(), end: end.unwrap_or(today + chrono::Months::new(12)).into(), renew: None, notes: None, aggregated_from: vec![], is_fresh_import: false });
+        }
+        UCmd::Trust { pkg, login, crit } => {
+            let Some(uid) = login.strip_prefix("user").and_then(|x| x.parse::<u64>().ok()) else { return };
+            ba.audits.trusted.entry(pkg.clone()).or_default().push(TrustEntry { criteria: spanned(crit), user_id: uid, start: gen::date(-4000).into(), end: (today + chrono::Months::new(12)).into(), notes: None, aggregated_from: vec![] });
+        }
+        UCmd::Import { name, url } => ba.config.imports.entry(name.clone()).or_default().url = vec![url.clone()],
+        UCmd::AddExemption { pkg, v, crit, no_suggest } => ba.config.exemptions.entry(pkg.clone()).or_default().push(ExemptedDependency { version: v.clone(), criteria: spanned(crit), suggest: !no_suggest, notes: None }),
+        UCmd::Renew { .. } => {
+            // renewing moves eligible wildcard audits to the cap
+            for l in ba.audits.wildcard_audits.values_mut() {
+                for w in l.iter_mut().filter(|w| w.renew != Some(false)) {
+                    w.end = (today + chrono::Months::new(12)).into();
+                }
+            }
+        }
+        UCmd::RecordViolation { .. } | UCmd::Check | UCmd::Prune { .. } | UCmd::RegenImports | UCmd::RegenUnpublished => {}
+    }
+    // the live view of before + ask, against the same remote
+    let root = std::env::var("VERIF_WORK").map(PathBuf::from).unwrap_or_else(|_| std::env::temp_dir());
+    let Ok(dir) = tempfile::Builder::new().prefix("vetba").tempdir_in(root) else { return };
+    let p2 = Project { dir, md: p.md.clone() };
+    // (the unlocked acquisition below needs imports.lock to name every import)
+    for n in ba.config.imports.keys() {
+        ba.imports.audits.entry(n.clone()).or_default();
+    }
+    p2.write(&ba.mock_commit());
+    let Ok(live_ba) = p2.acquire(false).map(|s| s.clone_for_suggest(false)) else { return };
+    r.oracle_checked += 1;
+    let mut names: BTreeSet<String> = p.md.packages.iter().map(|q| q.name.clone()).collect();
+    names.extend(live_after.audits.audits.keys().cloned());
+    for name in &names {
+        let (Some(ea), Some(eb)) = (core::spec_edges(live_after, &spec, name), core::spec_edges(&live_ba, &spec, name)) else { continue };
+        for c in 0..spec.crits.len() {
+            // with every record, and with audits and grants only (an exemption the clean-up then
+            // drops must not hide that the audits now reach further than what was asked for)
+            for (what, keep) in [("", &(|_: &core::SpecEdge| true) as &dyn Fn(&core::SpecEdge) -> bool), (" by audits and grants alone", &|e: &core::SpecEdge| e.kind != "exemption")] {
+                let ra = core::spec_reach(&ea, c, keep);
+                let rb = core::spec_reach(&eb, c, keep);
+                if let Some(v) = ra.iter().find(|v| !rb.contains(*v)) {
+                    r.fail("oracle", &format!("{}/ucmd/{}-widens-what-is-certified", r.prop.clone(), uc.label()), format!("after `{}` {name}:{} is certified for `{}`{what}, which the store before the command plus the entry asked for does not", uc.args().join(" "), v.as_ref().map(|x| x.to_string()).unwrap_or_default(), spec.crits[c]), case);
+                    return;
                 }
             }
         }
@@ -542,7 +611,7 @@ fn gen_ucmd(rng: &mut Rng, w: &CmdWorld, crits: &[String]) -> UCmd {
         7 | 8 | 9 | 10 => {
             let to = if rng.chance(4, 5) || ov.is_empty() { rng.pick(&gv).clone() } else { rng.pick(&ov).clone() };
             let from = if ov.is_empty() { rng.pick(&gv).clone() } else { rng.pick(&ov).clone() };
-            UCmd::CertifyDelta { pkg, from, to, crit: crit_list(rng) }
+            UCmd::CertifyDelta { pkg, collapse: from.git_rev.is_some() && rng.chance(1, 2), from, to, crit: crit_list(rng) }
         }
         11 | 12 if !logins.is_empty() => UCmd::CertifyWildcard { pkg, login: rng.pick(&logins).clone(), crit: crit_list(rng), end: if rng.chance(1, 3) { Some(gen::date(rng.below(12) as i64 * 20)) } else { None } },
         13 | 14 if !logins.is_empty() => UCmd::Trust { pkg, login: rng.pick(&logins).clone(), crit: crit_list(rng) },
@@ -613,7 +682,8 @@ pub fn exec_user_history(r: &mut Report, d: &mut Driver, rng: &mut Rng, idx: u64
             continue;
         }
         // ---- wiring correspondence
-        if !matches!(uc, UCmd::Renew { .. }) {
+        let collapsing = matches!(&uc, UCmd::CertifyDelta { from, collapse: true, .. } if from.git_rev.is_some());
+        if !matches!(uc, UCmd::Renew { .. }) && !collapsing {
             let canon = |f: &[String]| format!("--- audits.toml\n{}\n--- config.toml\n{}\n--- imports.lock\n{}", f[0], f[1], f[2]);
             match (&o, &expected) {
                 (Outcome::Ok, Ok(exp)) => {
@@ -660,7 +730,19 @@ pub fn exec_user_history(r: &mut Report, d: &mut Driver, rng: &mut Rng, idx: u64
                     }
                 }
             }
-            "C11" => c11_user(r, &uc, &before, &after, live_after.as_ref(), &case),
+            "C11" => {
+                c11_user(r, &uc, &before, &after, live_after.as_ref(), &case);
+                if let Some(live) = &live_after {
+                    c11_no_wider(r, &p, &uc, &before, live, &case);
+                }
+            }
+            // C05: a record counts for its criteria "and for no other criterion" also through the
+            // commands that write records
+            "C05" => {
+                if let Some(live) = &live_after {
+                    c11_no_wider(r, &p, &uc, &before, live, &case);
+                }
+            }
             "C12" => {
                 if verdict_after.as_deref() == Some("success") {
                     if let Some(live) = &live_after {
@@ -678,6 +760,9 @@ pub fn exec_user_history(r: &mut Report, d: &mut Driver, rng: &mut Rng, idx: u64
     }
     if nontrivial {
         r.nontrivial(&trace.join("|"));
+    }
+    if std::env::var("VERIF_TRACE").is_ok() {
+        eprintln!("TRACE {}\n--- audits.toml\n{}\n--- config.toml\n{}", trace.join(" ; "), p.files()[0], p.files()[1]);
     }
     if r.samples.len() < 5 && idx % 7 == 0 {
         r.sample(trace.join(" ; "));
@@ -718,6 +803,38 @@ pub fn corpus_certify_importable() -> (CmdWorld, Project) {
     (w, p)
 }
 
+/// `trust` next to an existing, stronger trusted entry for the same publisher whose window lies
+/// inside the default one (the scenario of seeded change s44)
+pub fn corpus_trust_next_to_stronger() -> (CmdWorld, Project) {
+    let (mut w, _) = corpus_certify_importable();
+    w.audits.trusted.insert("bravo".into(), vec![TrustEntry { criteria: vec![gen::sp(SAFE_TO_DEPLOY.to_owned())], user_id: 1, start: gen::sp(gen::date(2)), end: gen::sp(gen::date(5)), notes: None, aggregated_from: vec![] }]);
+    let p = cmd::setup_project(&w);
+    (w, p)
+}
+
+/// `certify` of a delta from a git revision with collapsing on, next to a prior non-importable
+/// audit ending at that revision for fewer criteria (the scenario of seeded change s48)
+pub fn corpus_collapse_fewer_criteria() -> (CmdWorld, Project) {
+    let v = |s: &str| VetVersion::parse(s).unwrap();
+    let (mut w, _) = corpus_certify_importable();
+    let crit = |d: &str| CriteriaEntry { description: Some(d.into()), description_url: None, implies: vec![], aggregated_from: vec![] };
+    w.audits.criteria.insert("reviewed".into(), crit("reviewed"));
+    w.audits.criteria.insert("fuzzed".into(), crit("fuzzed"));
+    w.config.policy.insert("alfa".into(), PackagePolicyEntry::Unversioned(PolicyEntry { audit_as_crates_io: None, criteria: Some(vec![gen::sp("reviewed".to_owned()), gen::sp("fuzzed".to_owned())]), dev_criteria: None, dependency_criteria: CriteriaMap::new(), notes: None }));
+    let both = vec![gen::sp("fuzzed".to_owned()), gen::sp("reviewed".to_owned())];
+    let git = v("2.0.0@git:aaaaaaaaaaaaaaaaaaaaaaaaaaaaaaaaaaaaaaaa");
+    w.audits.audits.insert("bravo".into(), vec![
+        AuditEntry { who: vec![], criteria: both.clone(), kind: AuditKind::Full { version: v("1.0.0") }, importable: true, notes: None, aggregated_from: vec![], is_fresh_import: false },
+        AuditEntry { who: vec![], criteria: vec![gen::sp("reviewed".to_owned())], kind: AuditKind::Delta { from: v("1.0.0"), to: git.clone() }, importable: false, notes: None, aggregated_from: vec![], is_fresh_import: false },
+    ]);
+    w.config.exemptions.insert("bravo".into(), vec![ExemptedDependency { version: v("3.0.0"), criteria: both.clone(), suggest: true, notes: None }]);
+    w.config.exemptions.insert("charlie".into(), vec![ExemptedDependency { version: v("1.0.0"), criteria: both, suggest: true, notes: None }]);
+    w.remote.peers.clear();
+    w.config.imports.clear();
+    let p = cmd::setup_project(&w);
+    (w, p)
+}
+
 pub fn run(r: &mut Report) {
     let mut d = Driver::spawn();
     let (shard, nshards) = shard();
@@ -728,7 +845,7 @@ pub fn run(r: &mut Report) {
         let v = |s: &str| VetVersion::parse(s).unwrap();
         let d2s = vec![SAFE_TO_DEPLOY.to_owned()];
         for fixed in [
-            vec![UCmd::CertifyDelta { pkg: "bravo".into(), from: v("1.0.0"), to: v("3.0.0"), crit: d2s.clone() }],
+            vec![UCmd::CertifyDelta { pkg: "bravo".into(), from: v("1.0.0"), to: v("3.0.0"), crit: d2s.clone(), collapse: false }],
             vec![UCmd::Trust { pkg: "bravo".into(), login: "user1".into(), crit: d2s.clone() }],
             vec![UCmd::CertifyWildcard { pkg: "bravo".into(), login: "user1".into(), crit: d2s.clone(), end: None }],
             vec![UCmd::Import { name: "peer0".into(), url: "https://peer0.example/audits.toml".into() }],
@@ -739,6 +856,15 @@ pub fn run(r: &mut Report) {
             let mut crng = Rng::new(1);
             exec_user_history(r, &mut d, &mut crng, 0, w, p, Some(fixed));
         }
+    }
+    if shard == 0 && only.is_none() {
+        let v = |s: &str| VetVersion::parse(s).unwrap();
+        let (w, p) = corpus_trust_next_to_stronger();
+        exec_user_history(r, &mut d, &mut Rng::new(1), 0, w, p, Some(vec![UCmd::Trust { pkg: "bravo".into(), login: "user1".into(), crit: vec![SAFE_TO_RUN.to_owned()] }]));
+        let (w, p) = corpus_collapse_fewer_criteria();
+        exec_user_history(r, &mut d, &mut Rng::new(1), 0, w, p, Some(vec![UCmd::CertifyDelta { pkg: "bravo".into(), from: v("2.0.0@git:aaaaaaaaaaaaaaaaaaaaaaaaaaaaaaaaaaaaaaaa"), to: v("3.0.0"), crit: vec!["reviewed".to_owned(), "fuzzed".to_owned()], collapse: true }]));
+        let (w, p) = corpus_collapse_fewer_criteria();
+        exec_user_history(r, &mut d, &mut Rng::new(1), 0, w, p, Some(vec![UCmd::CertifyDelta { pkg: "bravo".into(), from: v("2.0.0@git:aaaaaaaaaaaaaaaaaaaaaaaaaaaaaaaaaaaaaaaa"), to: v("3.0.0"), crit: vec!["reviewed".to_owned()], collapse: true }]));
     }
     for i in 0..n {
         let mut crng = rng.fork();
